@@ -241,12 +241,13 @@ func (s *Sixel) Destroy() {
 // upscaled, nor will it's aspect ratio be changed. Resize will be done in a
 // separate gorotuine. A Redraw event will be posted when complete
 func (s *Sixel) Resize(w int, h int) {
+	// Read the window size in the caller's goroutine: Render updates it
+	cellPixW := s.vx.winSize.XPixel / s.vx.winSize.Cols
+	cellPixH := s.vx.winSize.YPixel / s.vx.winSize.Rows
 	atomicStore(&s.encoding, true)
 	go func() {
 		defer atomicStore(&s.encoding, false)
 		// Resize the image
-		cellPixW := s.vx.winSize.XPixel / s.vx.winSize.Cols
-		cellPixH := s.vx.winSize.YPixel / s.vx.winSize.Rows
 		img := resizeImage(s.img, w, h, cellPixW, cellPixH)
 		max := img.Bounds().Max
 		s.w = max.X / cellPixW
